@@ -11,6 +11,9 @@
       `C10_never_removes_live`  no deadline / deadline in the future (in particular: extended or removed by a later
                                 upsert, because only the current expiry counts): the key stays;
       `C10_other_shard_untouched`  deadline in another shard: the key stays (until that shard's turn);
+      `C10_never_removes_unexpired`, `C10_evicts_only_expired`  for EVERY state (no invariant), by the sweeper's check
+                                against the store (fix 36c87dc): a value that has not expired by its own stored
+                                deadline stays, and every eviction is of an id whose stored value failed the check;
     * `C10_weight_reclaimed`    the evicted ids are exactly the charged ids with a due index entry, the total falls by
                                 the sum of their weights, they are no longer charged, all other charges are unchanged;
     * `C10_stale_harmless`      a due entry whose id is no longer charged (evicted earlier; a deleted key has no entry
@@ -74,7 +77,7 @@ theorem C10_removed_exactly {s s' : State} {ev : List Evicted} (t : TtlInv s)
         simp only [due, Bool.and_eq_true, beq_iff_eq, decide_eq_true_eq]
         exact ⟨hsh, hnow⟩
       have hin : e.id ∈ (s.ttl.filter (due s)).map (·.1.2) := (mem_dueIds t.noDup e.id).mpr ⟨_, x, hx, hd⟩
-      have := sp.evAll e.id hin wk hw
+      have := sp.evAll_due t (dueList_filter t.noDup) e.id hin wk hw
       have hmem : k ∈ ev.map (·.2.1) := List.mem_map.mpr ⟨_, this, hkey⟩
       simp [hmem]
   · rw [hget]
@@ -121,6 +124,43 @@ theorem C10_other_shard_untouched {s s' : State} {ev : List Evicted} (t : TtlInv
     exact absurd hs' hsh
   · exact h2
 
+/-- **A sweep never removes a value that has not expired by its OWN stored deadline — in EVERY state** (no invariant:
+    whatever the expiry index says, whoever is charged for what, worker dead or alive).  This is what the sweeper's
+    check against the store (`Store::has_unexpired_value_with_key_id`, fix 36c87dc) guarantees on its own; under
+    `TtlInv` (every reachable state of Layer A) it adds nothing to `C10_never_removes_live`, because there a due index
+    entry means the stored value has expired (`TtlInv.due_expired`) — at Layer B, where `put_or_update` changes the
+    stored deadline and the index in two steps, it is what keeps the key (D12, D13). -/
+theorem C10_never_removes_unexpired {s s' : State} {ev : List Evicted} (hs : sweepStep s = .ok (s', .swept ev))
+    {k : Nat} {e : Entry} (hk : s.store.get? k = some e)
+    (hlive : e.expiry = none ∨ ∃ x, e.expiry = some x ∧ s.now ≤ x) : s'.store.get? k = some e := by
+  obtain ⟨_, _, rfl⟩ := sweepStep_eq hs
+  exact sweepEntries_keeps_unexpired _ s [] hk (unexpiredWithId_eq_true.mpr ⟨e, hk, rfl, hlive⟩)
+
+/-- **Every eviction a sweep reports is of a key id whose stored value failed the check**: under the charged key nothing
+    is stored, or a value with another id, or a value whose own deadline has passed — in EVERY state. -/
+theorem C10_evicts_only_expired {s s' : State} {ev : List Evicted} (hs : sweepStep s = .ok (s', .swept ev))
+    {id key : Nat} {w : Int} (hm : (id, key, w) ∈ ev) :
+    s.store.get? key = none ∨ (∃ e, s.store.get? key = some e ∧ e.id ≠ id) ∨
+    (∃ e x, s.store.get? key = some e ∧ e.id = id ∧ e.expiry = some x ∧ s.now > x) := by
+  obtain ⟨s1, sp, _⟩ := sweepStep_spec hs
+  have h := sp.evExpired _ hm
+  simp only at h
+  cases hg : s.store.get? key with
+  | none => exact Or.inl rfl
+  | some e =>
+    by_cases hid : e.id = id
+    · refine Or.inr (Or.inr ?_)
+      cases hx : e.expiry with
+      | none =>
+        rw [unexpiredWithId_eq_true.mpr ⟨e, hg, hid, Or.inl hx⟩] at h
+        cases h
+      | some x =>
+        by_cases hnow : s.now ≤ x
+        · rw [unexpiredWithId_eq_true.mpr ⟨e, hg, hid, Or.inr ⟨x, hx, hnow⟩⟩] at h
+          cases h
+        · exact ⟨e, x, rfl, hid, hx, by omega⟩
+    · exact Or.inr (Or.inl ⟨e, rfl, hid⟩)
+
 /-- **The weight of the removed keys is reclaimed.**  `ev` (the evictions the sweep reports, as (id, key, weight))
     lists, without repetition, exactly the charged ids that have a due index entry, with the key and the weight they
     were charged for; the total falls by the sum of these weights; the ids are no longer charged afterwards; every
@@ -144,19 +184,13 @@ theorem C10_weight_reclaimed {s s' : State} {ev : List Evicted} (t : TtlInv s)
       obtain ⟨sh, x, hx, hd⟩ := (mem_dueIds t.noDup id).mp hin
       exact ⟨sh, x, hash, hx, hd, hg⟩
     · intro ⟨sh, x, hash, hx, hd, hg⟩
-      exact sp.evAll id ((mem_dueIds t.noDup id).mpr ⟨sh, x, hx, hd⟩) _ hg
+      exact sp.evAll_due t (dueList_filter t.noDup) id ((mem_dueIds t.noDup id).mpr ⟨sh, x, hx, hd⟩) _ hg
   · intro e he
     rw [h2, sp.kw]
-    simp [(sp.evIn e he).1]
+    simp [List.mem_map.mpr ⟨e, he, rfl⟩]
   · intro i hi
     rw [h2, sp.kw]
-    split
-    · rename_i hin
-      cases hg : s.adm.kw.get? i with
-      | none => rfl
-      | some wk =>
-        exact absurd (List.mem_map.mpr ⟨_, sp.evAll i hin wk hg, rfl⟩) hi
-    · rfl
+    simp [hi]
 
 /-- **A stale index entry is harmless.**  If a due entry's id is not charged any more (its key was evicted earlier;
     the key may have been put again since, under a new id) the sweep only drops that entry: no eviction is reported
@@ -317,6 +351,24 @@ example :
                     (.advance 3000000000, c10O), (.sweep, c10O)]) with
      | .ok s => decide (s.now = 8000000000 ∧ s.store.get? 1 = some ⟨10, 1, some 9000000000, false⟩ ∧ s.adm.used = 5 ∧
                         s.ttl = [((1, 1), 9000000000)])
+     | _ => false) = true := by decide
+
+/-- `C10_never_removes_unexpired` where `TtlInv` FAILS (the situation of D12/D13 at Layer B, frozen into a Layer A
+    state): the index still holds the OLD deadline 6 s of id 1, due at 8 s, while the stored value already carries the
+    extended deadline 9 s.  The sweep drops the index entry and leaves key 1 stored and charged (before the fix: key 1
+    was removed and its weight reclaimed). -/
+def c10OutOfStep : State :=
+  { (State.init c10Cfg 8000000000 [1, 2, 3, 4]) with
+    store := [(1, ⟨10, 1, some 9000000000, false⟩)], ttl := [((0, 1), 6000000000)],
+    adm := { max := 100, used := 5, kw := [(1, ⟨1, 1, 5⟩)] }, nextId := 2 }
+
+example :
+    c10OutOfStep.store.get? 1 = some ⟨10, 1, some 9000000000, false⟩ ∧ c10OutOfStep.now ≤ 9000000000 ∧
+    due c10OutOfStep ((0, 1), 6000000000) = true ∧
+    (match sweepStep c10OutOfStep with
+     | .ok (s', .swept ev) =>
+       decide (ev = [] ∧ s'.store.get? 1 = some ⟨10, 1, some 9000000000, false⟩ ∧ s'.adm.used = 5 ∧
+               s'.adm.kw.get? 1 = some ⟨1, 1, 5⟩ ∧ s'.ttl = [])
      | _ => false) = true := by decide
 
 /-- limit 10: key 1 (id 1, ttl, deadline 2 s) is evicted by the admission of key 2, which leaves a stale index
